@@ -32,8 +32,9 @@ Import ListNotations.
 
 (* HStartF: a start() whose _ThreadingHTTPServer constructor fails to bind (port taken by a foreign socket):
    nothing is assigned, the lock is released by the with block, the call raises *)
-Inductive hop := HStart | HStop | HStartF.
-Inductive hpc := HIdle | H_chk | H_chkF | H_spawn | H_setrun | H_rel
+(* HStartT: a start() whose Thread.start() raises after the server socket is bound and listening *)
+Inductive hop := HStart | HStop | HStartF | HStartT.
+Inductive hpc := HIdle | H_chk | H_chkF | H_chkT | H_spawnT | H_spawn | H_setrun | H_rel
                | P_chk | P_wait | P_close | P_join | P_clear | P_reset | P_rel.
 Inductive hmpc := HMNone | HM_clear | HM_loop | HM_fin | HM_ret | HMEnded.
 Inductive hsk := HSNone | HSOpen | HSClosed.
@@ -69,6 +70,9 @@ Definition hlock_free g := lk_eqb (hlock g) LFree.
 
 Section V.
   Variable close_on_stop : bool.
+  (* start() closes the freshly bound server socket when it fails after the bind (false = the code as it is:
+     no try/except around thread creation) *)
+  Variable cleanup_on_start_failure : bool.
 
   Definition hcstep (g : hglob) (me : bool) (p : hpc) (o : option hop) : option (hglob * hpc * bool) :=
     match p with
@@ -78,12 +82,19 @@ Section V.
         | Some HStart => if hlock_free g then Some (hset_lock g LCaller, H_chk, true) else None
         | Some HStop => if hlock_free g then Some (hset_lock g LCaller, P_chk, true) else None
         | Some HStartF => if hlock_free g then Some (hset_lock g LCaller, H_chkF, true) else None
+        | Some HStartT => if hlock_free g then Some (hset_lock g LCaller, H_chkT, true) else None
         end
     | H_chk =>
         if hrunning g then Some (hset_lock g LFree, HIdle, false)
         else if hsock_open (hsock g) then Some (hset_lock (hset_err g) LFree, HIdle, false)   (* EADDRINUSE *)
         else Some (hset_isdown (hset_sreq (hset_sock g HSOpen) false) false, H_spawn, false)
     | H_chkF => Some (hset_lock g LFree, HIdle, false)      (* already running: return; else the bind raises *)
+    | H_chkT =>
+        if hrunning g then Some (hset_lock g LFree, HIdle, false)
+        else if hsock_open (hsock g) then Some (hset_lock (hset_err g) LFree, HIdle, false)
+        else Some (hset_isdown (hset_sreq (hset_sock g HSOpen) false) false, H_spawnT, false)
+    | H_spawnT =>
+        Some (hset_lock (if cleanup_on_start_failure then hset_sock g HSClosed else g) LFree, HIdle, false)
     | H_spawn =>
         let g1 := if hmt_live (hmt g) then hset_err g else g in
         Some (hset_mt (hset_mref g1 true) HM_clear, H_setrun, false)
